@@ -133,6 +133,11 @@ CLAIMED = {
    note=TB + "Found and repaired D4 (commit b511edd: raw identifiers in composed names) and D7 (commit 23b505e: trailing comma in attribute lists). Known findings kept (not small/safe repairs): D5 (all fields skipped / empty struct), D6 (recurse on a generic-typed field), D8 (parameter used only behind a reference), D9 (bare reference field), D10 (reference to reference). The generics splitting, identifier formation and scoping of the expansion are not modelled in Coq; they are exercised by the compile test.",
    technique="Coq proof of the type parser (nested induction over the grammar) + parser dump vs extracted model + compile-and-run of generated declarations (test) + known-findings list",
    design="5/C17"),
+ 'C14': dict(
+   text="Machine-checked proof (Coq): a byte-level model of BOTH wire formats — nanoserde binary (derive: u16 variant index, fields in order; the hand-written impls of the ordered / unordered-array / flat-map / recursive-map diffs with the u8 discriminants translated from /repo; lenient Option tag) and bincode 1.3 fixint of the serde derives (u32 variant index, strict Option tag) — for the diff entries of EVERY wire shape (every field strategy incl. recurse+Option with its two variants, nested to any depth) and for the values travelling inside entries; theorem wire_owned_roundtrip: decoding what the encoder wrote returns exactly the entry list and the untouched rest of the stream for every valid entry list (by mutual induction over the shape with prefix-law combinators; side conditions on the translated tables — consistent, pairwise distinct, fit in u8 — re-proved by computation), hence the decoded diff has the effect of the in-memory one on any base. Tie in both directions on every run: the Coq model DECODES /repo's bytes of diff and of diff_ref in both formats and must read exactly the in-memory diff; /repo decodes and applies the MODEL's bytes; oracle: the serialized DiffRef decoded as the owned type has the same effect on a and on an equivalent base as the in-memory diff.",
+   note=TB + "That a produced diff satisfies the validity hypothesis of the theorem (integers within their slots, entries matching their fields) is checked by execution on every generated case (the model decodes its own encoding of every diff), not proved for all diffs. 'DiffRef bytes = Diff bytes' is compared after decoding (hash iteration order differs between two computations). nanoserde 0.1.37 / serde_derive / bincode 1.3 are modelled, not verified; shapes are restricted to containers nanoserde can encode (no VecDeque / BTreeMap).",
+   technique="Coq proof (prefix-law codec combinators, mutual induction over wire shapes) + translator for discriminant tables + two-way byte-level differential execution",
+   design="5/C14"),
 }
 NA_REASON = "check not wired into the manifest yet at this commit (build in progress; see DESIGN.md section 5 for the planned theorem and tie)"
 
